@@ -248,6 +248,65 @@ def solver_input_files(chk: Check, work):
     chk.cov["solver_input_files"] = "two contracts, same test name, one --dump-smt-directory, plain and --cache-solver; journalled solver input vs PathContext.query"
 
 
+def setup_queries(chk: Check, work):
+    """setUp() with two surviving paths: each is handed to the solver (<dump dir>/setUp/<k>.smt2) and the k-th file must be
+    the query of the k-th surviving path - checked by logical equivalence with that path's own constraints."""
+    import shutil
+
+    from halmos.sevm import SEVM
+    from harness.artifacts import SVM, Contract, Fn, cheat_call, run_contract
+
+    # n = svm.createUint256(""); if (n < 100) { x = 1; stop } if (n < 200) { x = 2; stop } revert
+    setup = cheat_call(SVM, "createUint256(string)", [[("PUSH", 0x20)], [("PUSH", 0)]], ret_words=1, mem=0x200)
+    setup += [("PUSH", 100), ("PUSH", 0x300), "MLOAD", "LT", ("PUSHL", "a"), "JUMPI", ("PUSH", 200), ("PUSH", 0x300), "MLOAD", "LT", ("PUSHL", "b"), "JUMPI",
+              ("PUSH", 0), ("PUSH", 0), "REVERT", ("LABEL", "a"), ("PUSH", 1), ("PUSH", 0), "SSTORE", "STOP", ("LABEL", "b"), ("PUSH", 2), ("PUSH", 0), "SSTORE", "STOP"]
+    c = Contract("SetupTwoPaths", [Fn("setUp()", setup), Fn("check_nothing()", ["STOP"])])
+    for cache in ((), ("--cache-solver",)):
+        ddir = work / "smt-setup"
+        if ddir.exists():
+            shutil.rmtree(ddir)
+        seen = []
+        orig_run = SEVM.run
+
+        def run(self, ex):
+            for out in orig_run(self, ex):
+                seen.append(out)
+                yield out
+
+        SEVM.run = run
+        try:
+            run_contract(c, cli=("--dump-smt-directory", str(ddir)) + cache)
+        finally:
+            SEVM.run = orig_run
+        # the paths of the setUp() transaction are the ones yielded last (the constructor runs first, on one path)
+        alive = [e for e in seen if e.context.output.error is None and not e.context.is_stuck() and e.context.message.data is not None]
+        alive = [e for e in alive if len(e.path.conditions) > 0][-2:]
+        files = sorted((ddir / "setUp").glob("[0-9]*.smt2")) if (ddir / "setUp").exists() else []
+        files = [f for f in files if ".refined" not in f.name]
+        tag = "cache" if cache else "plain"
+        if len(alive) != 2 or len(files) != 2:
+            raise MachineryError(f"setUp scenario ({tag}): {len(alive)} surviving paths, {len(files)} query files")
+        for k, (e, f) in enumerate(zip(alive, files)):
+            want = z3.And(*list(e.path.conditions))
+            body = []
+            for a in qo.parse(f.read_text()):
+                if z3.is_const(a) and z3.is_bool(a) and a.decl().name().isdigit():
+                    continue  # (assert (! |id| :named <id>)): the tracking literal, asserted
+                if z3.is_implies(a) and z3.is_const(a.arg(0)) and a.arg(0).decl().name().isdigit():
+                    a = a.arg(1)  # (assert (=> |id| c)) with |id| asserted: c
+                body.append(a)
+            got = z3.And(*body) if body else z3.BoolVal(True)
+            chk.count("traces_validated_against_impl")
+            chk.nontrivial(("setup-query", tag, k))
+            sol = z3.Solver()
+            sol.set(timeout=20000)
+            # the file declares its own symbols: compare through the names (both sides are over the same symbol names)
+            sol.add(z3.Xor(want, got))
+            if sol.check() != z3.unsat:
+                chk.violation(f"setup-query:{tag}", f"setUp() path {k} of 2: the query handed to the solver ({f.name}) is not equivalent to the constraints of that path",
+                              {"file": f.name, "query": f.read_text()[:1500], "path_conditions": [str(x)[:200] for x in e.path.conditions][:12]})
+
+
 def _consts(e, out, seen=None):
     seen = set() if seen is None else seen
     if e.get_id() in seen:
@@ -283,6 +342,7 @@ def run(chk: Check, tier: str):
                 npaths += 1
         run_contract_paths(chk, tier, rnd, work, obs)
         solver_input_files(chk, work)
+        setup_queries(chk, work)
         chk.cov["paths"] = npaths
         # --- SolverQuery.tla: design model, then the recorded observations
         r = run_tlc("SolverQuery", "MC_SolverQuery.cfg", work=work, expect_violation=True)
